@@ -170,11 +170,13 @@ def explorers(tier, seed):
         gems = {"SparseLinearMI": ["mi"], "SparseLinearMMD": ["mmd_ova"], "SparseMLPMMD": ["mmd_ovo"]}.get(name, ["mmd_ova", "mi", "wasserstein_ova"] if thorough else ["mmd_ova", "mi"])
         for gemini in gems:
             for alpha in (0.0, 0.05, 0.5, 5.0):
-                for Mc in (((0.5, 10.0, 0.0) if thorough else (0.5, 10.0)) if name in M.HAS_HIDDEN else (None,)):
+                for Mc in ((0.5, 10.0, 0.0) if name in M.HAS_HIDDEN else (None,)):
                     for gi, groups in enumerate(group_menu):
                         for bs in (None, 3):
                             for dynamic in ((False, True) if name != "SparseLinearMI" else (False,)):
                                 for mode in ("fit", "path"):
+                                    if not thorough and Mc == 0.0 and (gi % 5 != 0 or bs is not None):
+                                        continue          # quick: the edge value M=0 on a subset of the group structures
                                     if not thorough:
                                         # quick: all group structures for the default (bs, dynamic); other axes on a group subset
                                         if (bs is not None or dynamic) and gi % 4 != 0:
